@@ -24,11 +24,13 @@ META = {
     "C02": dict(level="proof", assumptions=[
         "WORD units (multiply, square, Montgomery product / reduction, divide_std_dword): every word is 0 <= w < 2^64 and nothing else is assumed; results are exact polynomial identities; the only non-polynomial steps are monotone bounds on non-negative integers (T*R == A*B + U*p with A, B < p, U < R gives T < 2p; a carry dropped above the top word of a product that fits is 0), spelled out in contracts/fpmulw.py",
         "Fp::multiply / square / montgomery_reduce end in FpBase::reduce, which enters through its own CBMC contract (argument < 2p => result == argument mod p, < p)",
-        "fp_inverse: partial correctness by an inductive invariant over the three loops (b == K*u, c == K*v mod p); each 'multiple of p' claim carries an explicit certificate m*X == p*Y + sum c_i*rel_i that is re-checked exactly; K exists because the modulus is prime (Miller-Rabin, 64 bases); infeasible integer branches pruned with z3 (QF_LIA); termination (gcd(u,v) == 1) not proved",
+        "fp_inverse: partial correctness by an inductive invariant over the three loops (b == K*u, c == K*v mod p); each 'multiple of p' claim carries an explicit certificate m*X == p*Y + sum c_i*rel_i that is re-checked exactly; K exists because the modulus is prime (Miller-Rabin, 64 bases); infeasible integer branches pruned with z3 (QF_LIA)",
+        "fp_inverse terminates: the invariant also carries u, v >= 1, gcd(u, v) == 1 (ghost Bezout witnesses X*u + Y*v == 1, re-established by integer combinations 2X / X+Y of the old ones) and 'u, v not both even' at the outer head; each halving loop strictly decreases its own variable and leaves the other pair untouched, the outer loop strictly decreases u + v; the branch u == v is excluded by the Bezout relation (u >= 2 would divide 1). Existence of the witnesses at entry is gcd(a, p) == 1 for 0 < a < p, p prime (closed fact). The loop cuts follow the loops' own text (which pair a halving loop works on, where the exit test sits), not their position",
         "exponentiate / Legendre / Fq::square_root: exponent view with loop cuts; Euler's criterion and the q == 3 (mod 4) root formula are textbook facts applied to the proved exponents",
         "Fr::square_root (Tonelli-Shanks): loop cut on the outer loop in the exponent view a^alpha * c0^gamma (gamma modulo 2^32, parity syntactic because odd quantities are written 2x+1); for every m in 1..32 and every order 2^i of t one real iteration re-establishes the invariant with m' = i < m (termination) or exits with x^2 == a; claimed for squares only; F_r^* cyclic, the root-of-unity constant of exact order 2^32 (closed fact)",
-        "the assembly back ends that replace these routines on x86-64 are C03 (bigint.s covered; multiply.s / bmi2 not)"]),
-    "C11": dict(level="other", explanation=WKD_EXPL, assumptions=GROUP_ASSUME),
+        "the assembly back ends that replace these routines are C03; the architecture forwarders (which routine each specialised method calls, with which arguments, in every preprocessor configuration incl. compile-time __BMI2__) are decided in contracts/archfw.py"]),
+    "C11": dict(level="other", explanation=WKD_EXPL, assumptions=GROUP_ASSUME + [
+        "slot bookkeeping for EVERY slot count (contracts/slots.py, CBMC loop contracts, reported as proof obligations): keygen, nondelegable_keygen, qualifykey, nondelegable_qualifykey -- for all 0 <= l <= INT_MAX, every attribute list and (qualification) every parent slot count: 0 <= key.l <= capacity, omitAll ==> key.l == 0, keygen lists at least l - |attrs| slots, entries ascending and in range (two ghost positions), every index inside its array, no signed overflow, no lossy conversion; group operations enter by their frame contracts only. What the entries CONTAIN is the GROUP part (bounded in l)"]),
     "C12": dict(level="other", explanation=WKD_EXPL, assumptions=GROUP_ASSUME),
     "C13": dict(level="other", explanation=WKD_EXPL, assumptions=GROUP_ASSUME),
     "C14": dict(level="other", explanation=WKD_EXPL, assumptions=GROUP_ASSUME),
@@ -72,11 +74,12 @@ META = {
         "AArch64 (src/core/arch/aarch64/bigint.s, multiply.s; eight routines): WORD back end over the SOURCE TEXT -- tools/armword.py expands the .macro bodies itself and interprets ldp/stp/adds/adcs/subs/sbcs/mul/umulh/cmp/cset/b.cc (no AArch64 assembler or emulator in the sandbox, so neither the encoding nor a native run is available; the front end and the semantics table are trusted); the compare / conditional-subtract tail is proved on an abstracted state (every live word a fresh symbol, one fact T < 2p carried over), i.e. for more states than can occur",
         "ARMv6-M (src/core/arch/armv6_m/bigint.s, multiply.s; eight routines, Thumb-1, 32-bit words): tools/thumbword.py, source-text level as for AArch64; flag semantics of the pre-UAL syntax per the ARMv6-M ARM (16-bit data-processing instructions set the flags; MULS / EORS leave C; LSLS / LSRS set C to the last bit shifted out); a low-register `mov` makes C UNKNOWN (the two possible encodings differ) and no covered routine reads it afterwards; fpbase_384_reduce (fp.cpp -> FpBase<384>::reduce) enters through its 32-bit-word CBMC contract; one z3 process per path, fed incrementally (facts asserted once; `unsat` for a query is accepted only between echo markers)",
         "run-time dispatch (runtime.cpp): each pointer's initialiser is `probe ? bmi2_adx_X : X` for the same operation X, after the flag, in one translation unit, and no other namespace-scope object of the library is dynamically initialised (clang AST); the CPUID probe's machine code is the expected leaf-7 / EBX[8] & EBX[19] sequence; what the CPU reports is outside",
+        "architecture forwarders (include/core/arch/*/bigint.hpp, fp.hpp): for the x86-64 default, x86-64 compiled with -mbmi2 -madx (the #ifdef __BMI2__ branches), AArch64 and ARMv6-M preprocessor configurations every explicit specialisation is one call of the routine (or dispatch pointer) of its own class, width and operation with (this, operands in order); the two ARM ASTs are dumped with clang's freestanding headers and a declarations-only <string.h> (tools/stubinc)",
         "bit-identity of the back ends is the corollary of every back end meeting the same deterministic postcondition"]),
     "C07": dict(level="proof", assumptions=GROUP_ASSUME + [
         "GT in the exponent view: multiply / square_cyclotomic / conjugate / inverse act as +, *2, -, - on discrete logs (C04 for the field operations; Granger-Scott squaring and conj = inverse on the cyclotomic subgroup are trusted)",
         "frobenius_map(.,k) on GT is exponentiation by q^k, and q = x (mod r) (closed fact by construction of q from x)",
-        "Horner's rule (paper): the per-iteration identity holds for every bit pattern and every accumulator value; loop-cut representative index with poisoned neighbours",
+        "Horner's rule (paper): the per-iteration identity holds for every bit pattern and every accumulator value; every index of the loop is a step case (the counter is concrete control state) and the guard is re-evaluated after each step",
         "BigInt::multiply / add / compare / divide_std_dword integer contracts (C02 rung) in the integer-level decomposition units",
         "uniformity of PowersOfX::random: (digits) <-> [0, r) is a bijection on the accepted set (paper, one line); termination of the rejection loops is not claimed"]),
     "C10": dict(level="proof", assumptions=GROUP_ASSUME + [
@@ -95,6 +98,7 @@ META = {
         "alignment obligations are relative to a buffer base that is itself suitably aligned (what malloc returns)",
         "lang/go/*/marshal.go (the allocating Go callers) are not covered: no Go verifier in this toolchain"]),
     "C17": dict(level="proof", assumptions=[
+        "slot loops of keygen / nondelegable_keygen / qualifykey / nondelegable_qualifykey for every slot count: CBMC loop contracts with bounds, pointer, overflow and conversion checks (contracts/slots.py); destination array capacity = l (keygen) or the parent's slot count (qualification)",
         "same stubs and bounds as C15; memory-safety obligations are CBMC's own instrumentation (--bounds-check --pointer-check --pointer-overflow-check --div-by-zero-check --undefined-shift-check --signed-overflow-check) on the extracted C, plus out-of-bounds / uninitialised-read / null-subscript findings of the symbolic executor on the scheme API bodies",
         "(a) length functions: for every n and first byte, either -1 or n = fixed(first byte) + l*slot;  (b) unmarshal on a buffer of exactly that n and a slot array of exactly l entries: every access in bounds;  (a)+(b) compose to 'any buffer of any length >= 1'",
         "C++-only UB classes (strict aliasing, union active member, object lifetime) are not modelled; assembly routines are outside this check",
